@@ -205,6 +205,15 @@ pub fn check_conv(c: &ConvCase) -> CheckResult {
         if s.r > s.a || s.g > s.a || s.b > s.a {
             return Err(format!("from_unpremultiplied_argb({}, {}, ..) = {:?} is not premultiplied", a, v, s));
         }
+        // Color -> Source goes through the same conversion
+        match Source::from(Color::new(a, v, 255 - v, v / 2)) {
+            Source::Solid(s3) => {
+                if s3 != s {
+                    return Err(format!("Source::from(Color::new({}, {}, {}, {})) = Solid({:?}) differs from from_unpremultiplied_argb = {:?}", a, v, 255 - v, v / 2, s3, s));
+                }
+            }
+            _ => return Err("Source::from(Color) is not a solid source".into()),
+        }
         let s2 = SolidSource::from(Color::new(a, v, 255 - v, v / 2));
         if s2 != s {
             return Err(format!("SolidSource::from(Color::new({}, {}, {}, {})) = {:?} differs from from_unpremultiplied_argb = {:?}", a, v, 255 - v, v / 2, s2, s));
@@ -220,7 +229,7 @@ pub fn property(ctx: &Ctx) -> Property {
     let steer = ctx.excluded(NONSEP_KEY);
     Property {
         id: "C18",
-        rule: "part scenes: nested scenes (clips, layers with any opacity/blend, fills, fill_rects, strokes, masks, clear, image draws; solid/image/gradient sources incl. zero-length linear gradients, 28 modes, alpha in [0,1], all transform classes) on premultiplied initial contents; after every call every pixel of get_data() must satisfy r,g,b <= a. part sweep: exhaustive blend mode (28) x opacity-coverage byte {0,1,127,128,254,255} x {no clip, partial clip path} over a premultiplied boundary lattice of (source, destination) pairs, delivered through a layer. part conv: SolidSource::from_unpremultiplied_argb and From<Color> for all 256 alphas x 256 channel values: premultiplied and = round(a*c/255). Non-trivial: a call with a mode outside {Dst,Src,Clear,SrcOver} on a destination holding translucent pixels; distinct by hash of the case.",
+        rule: "part scenes: nested scenes (clips, layers with any opacity/blend, fills, fill_rects, strokes, masks, clear, image draws; solid/image/gradient sources incl. zero-length linear gradients, 28 modes, alpha in [0,1], all transform classes) on premultiplied initial contents; after every call every pixel of get_data() must satisfy r,g,b <= a. part sweep: exhaustive blend mode (28) x opacity-coverage byte {0,1,127,128,254,255} x {no clip, partial clip path} over a premultiplied boundary lattice of (source, destination) pairs, delivered through a layer. part conv: SolidSource::from_unpremultiplied_argb, From<Color> for SolidSource and From<Color> for Source for all 256 alphas x 256 channel values: premultiplied and = round(a*c/255). Non-trivial: a call with a mode outside {Dst,Src,Clear,SrcOver} on a destination holding translucent pixels; distinct by hash of the case.",
         assumptions: vec![
             "checked build (overflow checks + debug assertions): sw_composite::pack_argb32's own debug assertion r,g,b <= a is live and counts as the same invariant; its known failures in the four non-separable modes are listed findings",
             "a second pass (sweep + 20% of the scenes) runs in a build without overflow checks and debug assertions (what users ship), where arithmetic slips wrap instead of panicking; see coverage.unchecked_profile",
